@@ -19,7 +19,7 @@ enum { FV_OP_END = 0, FV_OP_LESS, FV_OP_MORE, FV_OP_UNPUT, FV_OP_INPUT, FV_OP_RE
        FV_OP_SCANSTRING, FV_OP_SCANBUFFER, FV_OP_SWITCH, FV_OP_PUSHBUF, FV_OP_POPBUF, FV_OP_FLUSH,
        FV_OP_DELETE, FV_OP_RESTART, FV_OP_CREATE, FV_OP_DESTROY, FV_OP_SETLINENO, FV_OP_GETLINENO,
        FV_OP_NEWYYIN, FV_OP_START, FV_OP_ATBOL, FV_OP_ECHO, FV_OP_TERMINATE, FV_OP_FLUSHCUR,
-       FV_OP_GRAB, FV_OP_CONT, FV_OP_INCLUDE_END };
+       FV_OP_GRAB, FV_OP_CONT, FV_OP_INCLUDE_END, FV_OP_TLOAD, FV_OP_TDESTROY };
 
 #ifdef __cplusplus
 extern "C" {
